@@ -282,23 +282,30 @@ func (t *Task) latestDependency(pg wpg.Conn) (uint64, []byte, error) {
 			and ig_name = ANY($2)
 			order by ig_name, num desc
 		)
-		select num, hash
+		select num, hash, (select count(*) from latest)
 		from latest
 		order by num asc
 		limit 1;
 	`
-	num, hash := uint64(0), []byte{}
+	var uniq = map[string]struct{}{}
+	for _, name := range t.destConfig.Dependencies {
+		uniq[name] = struct{}{}
+	}
+	num, hash, started := uint64(0), []byte{}, uint64(0)
 	err := pg.QueryRow(
 		t.ctx,
 		q,
 		t.srcName,
 		t.destConfig.Dependencies,
-	).Scan(&num, &hash)
+	).Scan(&num, &hash, &started)
 	switch {
 	case errors.Is(err, pgx.ErrNoRows):
 		return 0, nil, nil
 	case err != nil:
 		return 0, nil, err
+	case started < uint64(len(uniq)):
+		// a referenced integration has not recorded any progress yet
+		return 0, nil, nil
 	default:
 		return num, hash, nil
 	}
